@@ -359,7 +359,12 @@ class ArraySetitemCompiler(ArrayCompiler):
 
     def compile_with_inouts(self, args: list[Wire]) -> CallReturnWires:
         [array, idx, elem] = args
-        if self.elem_ty.type_bound() == ht.TypeBound.Linear:
+        # Use the same criterion as `ArrayGetitemCompiler`: elements of non-copyable
+        # Guppy types are borrowed by `__getitem__`, so they must be given back with
+        # `return` even if their Hugr type happens to be copyable.
+        [elem_ty_arg, _] = self.type_args
+        assert isinstance(elem_ty_arg, TypeArg)
+        if not elem_ty_arg.ty.copyable:
             return self._build_linear_setitem(array, idx, elem)
         else:
             return self._build_classical_setitem(array, idx, elem)
